@@ -42,7 +42,7 @@ NON_CORE_IDENTIFIERS = {"d": "d1"}
 
 # class id -> analyzers (dialect labels or LEGACY) for which a disagreement on a statement of that class is a listed finding
 CLASS_ANALYZERS = {
-    "K1": ["clickhouse"], "K2": ["exasol"], "K3": ["impala"], "K4": ["oracle"],
+    "K1": ["clickhouse"], "K4": ["oracle"],
     "L1": [LEGACY], "L2": [LEGACY], "L3": [LEGACY], "L4": [LEGACY], "L5": [LEGACY], "L6": [LEGACY], "L8": [LEGACY],
     # C01 classes: the sqlfluff analyzer itself deviates from the specification there; the legacy analyzer need not deviate alike
     # (D2w / D5 / D7 are not produced by the generator; a disagreement there would be reported)
@@ -321,16 +321,17 @@ def _tsql_using(sh, fired):
 SHAPE_RULES = [
     ("batch-wrapper", ["tsql", "oracle"], _unwrap_batch, "neutral",
      "file(batch(statement)) instead of file(statement) (analyzer.py:96-108 handles `batch`)"),
-    ("ctas-type-alias", ["postgres", "greenplum", "redshift", "vertica"], None, "neutral",
-     "CREATE TABLE AS is `create_table_as_statement` (claimed by the same extractor: Props.C09.alias_same_extractor)"),
-    ("ctas-type-unclaimed", ["impala"], None, "finding:K3",
-     "CREATE TABLE AS is `create_table_as_select_statement`, claimed by no extractor (Props.C09.dev_K3_unclaimed)"),
+    ("ctas-type-alias", ["postgres", "greenplum", "redshift", "vertica", "impala"], None, "neutral",
+     "CREATE TABLE AS is `create_table_as_statement` / impala: `create_table_as_select_statement` (claimed by the same extractor: "
+     "Props.C09.alias_same_extractor; K3 repaired)"),
+    ("ctas-type-unclaimed", [], None, "neutral",
+     "no unclaimed statement type is left (Props.C09.fixed_K3_none_unclaimed)"),
     ("view-target-object_reference", ["tsql", "materialize"], _target_reference, "neutral",
      "CREATE VIEW target is `object_reference` (create_insert.py accepts table_reference and object_reference)"),
     ("ctas-target-object_reference", ["redshift"], _target_reference, "neutral",
      "CREATE TABLE AS target is `object_reference` (accepted like table_reference)"),
-    ("view-target-view_reference", ["exasol"], _target_reference, "finding:K2",
-     "CREATE VIEW target is `view_reference`, which create_insert.py does not accept as a target"),
+    ("view-target-view_reference", ["exasol"], _target_reference, "neutral",
+     "CREATE VIEW target is `view_reference` (accepted as a write target since the repair of K2)"),
     ("cast-type-arguments-as-sibling", ["hive", "impala", "clickhouse"], _cast_type_args, "neutral",
      "the arguments of a parametrised type in CAST are a sibling `expression` of `data_type`"),
     ("partitionby-entry-unwrapped", ["tsql"], _partition_unwrapped, "neutral",
